@@ -37,6 +37,7 @@ ALL_CALCULATORS = sorted(UNITS)
 OUTPUT_FORCE_UNIT = {
     "vasp": 1.0, "abinit": 1.0, "qe": RYDBERG / BOHR, "elk": HARTREE / BOHR, "siesta": 1.0, "dftbp": HARTREE / BOHR,
     "castep": 1.0, "pwmat": 1.0, "crystal": HARTREE / BOHR, "turbomole": HARTREE / BOHR,
+    "aims": 1.0, "abacus": 1.0, "lammps": 1.0,
 }
 PEER_CALCULATORS = sorted(OUTPUT_FORCE_UNIT)
 CARRIES_POSITIONS = {"vasp"}
@@ -276,6 +277,30 @@ def write_force_output(calc, filename, read_cell, forces_eVA, energy=-10.0, late
     elif calc == "pwmat":
         lines.append("  %d atoms, force (eV/A)" % n)
         lines += ["  %3d  %22.14f  %22.14f  %22.14f" % ((11,) + tuple(-v)) for v in F]
+    elif calc == "aims":
+        lines.append("  | Number of atoms                   :  %6d" % n)
+        lines.append("  | Unit cell:")
+        for v in np.array(read_cell.cell):
+            lines.append("  |  %16.8f %16.8f %16.8f" % tuple(v))
+        lines.append("  Atomic structure:")
+        lines.append("  |       Atom                x [A]            y [A]            z [A]")
+        for i, (p, sy) in enumerate(zip(read_cell.positions, read_cell.symbols)):
+            lines.append("  |  %4d: Species %-2s %16.8f %16.8f %16.8f" % (i + 1, sy, p[0], p[1], p[2]))
+        lines.append("  Total atomic forces (unitary forces cleaned) [eV/Ang]:")
+        lines += ["  |  %4d  %24.16E  %24.16E  %24.16E" % ((i + 1,) + tuple(v)) for i, v in enumerate(F)]
+        lines.append("")
+    elif calc == "abacus":
+        lines.append(" TOTAL ATOM NUMBER = %d" % n)
+        lines.append(" TOTAL-FORCE (eV/Angstrom)")
+        lines.append(" ------------------------------------------------------------------")
+        for i, (v, sy) in enumerate(zip(F, read_cell.symbols)):
+            lines.append("  %s%d  %20.12f  %20.12f  %20.12f" % ((sy, i + 1) + tuple(v)))
+        lines.append(" ------------------------------------------------------------------")
+    elif calc == "lammps":
+        lines += ["ITEM: TIMESTEP", "0", "ITEM: NUMBER OF ATOMS", "%d" % n, "ITEM: BOX BOUNDS xy xz yz pp pp pp", "0 1 0", "0 1 0", "0 1 0",
+                  "ITEM: ATOMS id type x y z fx fy fz"]
+        for i, (p, v) in enumerate(zip(read_cell.positions, F)):
+            lines.append("%d %d %15.8f %15.8f %15.8f %20.12f %20.12f %20.12f" % (i + 1, 1, p[0], p[1], p[2], v[0], v[1], v[2]))
     elif calc == "crystal":
         lines.append(" CARTESIAN FORCES IN HARTREE/BOHR (ANALYTICAL)")
         lines.append("   ATOM                     X                   Y                   Z")
@@ -294,7 +319,8 @@ def truncate_in_force_block(calc, filename):
     text = open(target).read()
     lines = text.split("\n")
     marker = {"vasp": 'name="forces"', "abinit": "cartesian forces", "qe": "Forces acting", "elk": "Forces :", "siesta": None, "dftbp": "forces   ",
-              "castep": "Cartesian components", "pwmat": "force (eV/A)", "crystal": "ATOM   ", "turbomole": "cycle ="}[calc]
+              "castep": "Cartesian components", "pwmat": "force (eV/A)", "crystal": "ATOM   ", "turbomole": "cycle =", "aims": "Total atomic forces",
+              "abacus": "TOTAL-FORCE", "lammps": "ITEM: ATOMS"}[calc]
     start = 0
     if marker is not None:
         for i, ln in enumerate(lines):
